@@ -21,6 +21,7 @@ import XotModel.Lemmas.FinvStable
 import XotModel.Lemmas.FinvValue7
 import XotModel.Lemmas.FinvReads
 import XotModel.Lemmas.FinvPrefix
+import XotModel.Lemmas.FinvIdIndex
 
 namespace XotModel.Props
 open XotModel
@@ -594,5 +595,122 @@ example : ((pfxForest.createMissingPrefixes pfxEnv 0).1.get? 0).map (fun t => t.
     (pfxForest.createMissingPrefixes pfxEnv 1).2.2 = .err .notElement := by decide +kernel
 example : (pfxForest.deduplicateNamespaces pfxEnv 0).1.allHandles = [0, 1, 2] ∧
     (pfxForest.deduplicateNamespaces pfxEnv 0).2 = .ok := by decide +kernel
+
+/-! ### The xml:id index: `xml_id_node` never hands out a removed node
+
+`Model/FidIndex.lean`: `IdStore` = forest + index `(document, ID value) ↦ element`, written only by
+`parseInto` (= `Xot::parse` / `parse_fragment` into the existing store), read by `xmlIdNode`
+(= `Xot::xml_id_node`: lookup, then the liveness filter); histories `IdOp` = any call of `Op`, or a
+parse.  Slot reuse is below the model; the `fidx` suite ties `xmlIdNode` to the real accessor on
+histories that remove ID elements and refill the freed arena slots. -/
+
+/-- Whatever `xml_id_node` hands out is live, hence not removed: for EVERY store and index (no
+    invariant needed), in particular after every history of calls and parses. -/
+theorem C04_xml_id_live (s : IdStore) (doc h : Nat) (v : Str) (hx : s.xmlIdNode doc v = some h) :
+    s.forest.isLive h = true ∧ s.forest.isRemoved h = false :=
+  ⟨((IdStore.xmlIdNode_eq_some_iff s doc v h).mp hx).2,
+   Forest.isRemoved_false_of_live ((IdStore.xmlIdNode_eq_some_iff s doc v h).mp hx).2⟩
+
+theorem C04_xml_id_live_history (s : IdStore) (ops : List IdOp) (doc h : Nat) (v : Str)
+    (hx : (s.run ops).xmlIdNode doc v = some h) :
+    (s.run ops).forest.isLive h = true ∧ (s.run ops).forest.isRemoved h = false :=
+  C04_xml_id_live _ doc h v hx
+
+/-- The index invariant (keys and entries were handed out earlier, keys unique) holds of every
+    store reachable from the empty one. -/
+theorem C04_xml_id_wf (ops : List IdOp) : (IdStore.init.run ops).Wf := IdStore.wf_run IdStore.wf_init ops
+
+/-- Right after a parse (tree without duplicate IDs; `hb` is part of `Forest.Inv`): every ID of the
+    tree is found in the new document and what is found is the element that carries an xml:id
+    attribute with that value; no other value is found there; other documents answer as before. -/
+theorem C04_xml_id_parse (s : IdStore) (hw : s.Wf) (hb : ∀ x ∈ s.forest.allHandles, x < s.forest.next)
+    (t : Tree) (hn : (Tree.idValues t).Nodup) :
+    (∀ v ∈ Tree.idValues t, ∃ h name ks, (s.parseInto t).1.xmlIdNode (s.parseInto t).2 v = some h ∧
+        (s.parseInto t).1.forest.get? h = some (.node h (.element name) ks) ∧ v ∈ HTree.idAttrValues ks) ∧
+    (∀ v, v ∉ Tree.idValues t → (s.parseInto t).1.xmlIdNode (s.parseInto t).2 v = none) ∧
+    (∀ d v, d ≠ (s.parseInto t).2 → (s.parseInto t).1.lookup d v = s.lookup d v ∧
+        (s.parseInto t).1.xmlIdNode d v = s.xmlIdNode d v) := by
+  have hfst := idEntries_ofTree_fst s.forest.next 0 t
+  refine ⟨fun v hv => ?_, fun v hv => ?_, fun d v hd => ?_⟩
+  · obtain ⟨e, he, rfl⟩ := List.mem_map.mp (show v ∈ (HTree.idEntries (HTree.ofTree s.forest.next t)).map (·.1) from hfst ▸ hv)
+    obtain ⟨name, ks, hf, hm⟩ := idEntries_ofTree_find _ t e he
+    have hmem := idEntries_mem_handles _ e he
+    have hl : (s.parseInto t).1.lookup s.forest.next e.1 = some e.2 := by
+      rw [IdStore.lookup_parseInto_new]; exact lookup_of_mem_nodup _ (hfst ▸ hn) e he
+    have hlive : (s.parseInto t).1.forest.isLive e.2 = true :=
+      Forest.isLive_of_mem_allHandles (by rw [IdStore.parseInto_allHandles]; exact List.mem_append_right _ hmem)
+    refine ⟨e.2, name, ks, (IdStore.xmlIdNode_eq_some_iff _ _ _ _).mpr ⟨hl, hlive⟩, ?_, hm⟩
+    rw [IdStore.get?_parseInto_new s hb t _ (handles_ofTree _ t _ hmem).1]; exact hf
+  · apply IdStore.xmlIdNode_of_lookup_none
+    show (s.parseInto t).1.lookup s.forest.next v = none
+    rw [IdStore.lookup_parseInto_new]; exact lookup_none_of_not_mem _ v (hfst ▸ hv)
+  · have hl := IdStore.lookup_parseInto_other s t d v hd
+    refine ⟨hl, ?_⟩
+    cases hs : s.lookup d v with
+    | none => rw [IdStore.xmlIdNode_of_lookup_none _ _ _ (hl.trans hs), IdStore.xmlIdNode_of_lookup_none _ _ _ hs]
+    | some h =>
+      rw [IdStore.xmlIdNode_of_lookup _ _ _ h (hl.trans hs), IdStore.xmlIdNode_of_lookup _ _ _ h hs,
+        IdStore.isLive_parseInto_old s t h (IdStore.lookup_below hw hs).2]
+
+/-- The index is never rewritten: along any history, the entry of an existing document stays. -/
+theorem C04_xml_id_index_frozen (s : IdStore) (ops : List IdOp) (d : Nat) (v : Str) (hd : d < s.forest.next) :
+    (s.run ops).lookup d v = s.lookup d v := IdStore.lookup_run s ops d v hd
+
+/-- As long as the element is not removed, `xml_id_node(doc, v)` keeps answering the same handle,
+    whatever is called or parsed (moving it to another document, renaming it, dropping its
+    attribute included); once it is removed the answer is `none` for ever. -/
+theorem C04_xml_id_stable (s : IdStore) (hw : s.Wf) (ops : List IdOp) (doc h : Nat) (v : Str)
+    (hx : s.xmlIdNode doc v = some h) :
+    ((s.run ops).forest.isRemoved h = false → (s.run ops).xmlIdNode doc v = some h) ∧
+    ((s.run ops).forest.isRemoved h = true →
+      ∀ more : List IdOp, ((s.run ops).run more).xmlIdNode doc v = none) := by
+  have hl := ((IdStore.xmlIdNode_eq_some_iff s doc v h).mp hx).1
+  have hlt := IdStore.lookup_below hw hl
+  constructor
+  · intro hr
+    have hn := (IdStore.le_run s ops).next
+    rw [IdStore.xmlIdNode_of_lookup _ _ _ h ((IdStore.lookup_run s ops doc v hlt.1).trans hl)]
+    have : (s.run ops).forest.isLive h = true := by
+      cases hlv : (s.run ops).forest.isLive h with
+      | true => rfl
+      | false => simp [Forest.isRemoved, hlv, Nat.lt_of_lt_of_le hlt.2 hn] at hr
+    rw [this]; rfl
+  · intro hr more
+    have hr' := Forest.isRemoved_mono (IdStore.le_run (s.run ops) more) hr
+    rw [← IdStore.run_append] at hr' ⊢
+    rw [IdStore.xmlIdNode_of_lookup _ _ _ h ((IdStore.lookup_run s _ doc v hlt.1).trans hl)]
+    have : (s.run (ops ++ more)).forest.isLive h = false := by
+      simp only [Forest.isRemoved, Bool.and_eq_true, Bool.not_eq_true'] at hr'; exact hr'.2
+    rw [this]; rfl
+
+/-- Parsing into an existing store keeps the forest invariant (for a tree that is valid, which is
+    what the parser builds), hence so does every history of calls and such parses. -/
+theorem C04_parse_inv (s : IdStore) (hi : s.forest.Inv) (t : Tree) (hv : s.parseOK t) :
+    (s.parseInto t).1.forest.Inv := IdStore.inv_parseInto hi t hv
+
+theorem C04_reach_parse (ops : List IdOp) (hok : IdStore.init.runOK ops) : (IdStore.init.run ops).forest.Inv :=
+  IdStore.inv_run ((Forest.inv_iff _).mp C04_init) ops hok
+
+/-- Non-vacuity: `<doc><a xml:id="x"><c/></a><b xml:id="y"/></doc>` parsed next to an API-built
+    element (handle 0; document 1, doc 2, a 3, its attribute 4, c 5, b 6, its attribute 7). -/
+def idDoc : Tree := .node .document [.node (.element 2) [
+  .node (.element 3) [.node (.attribute 1 ['x']) [], .node (.element 5) []],
+  .node (.element 4) [.node (.attribute 1 ['y']) []]]]
+def idOps : List IdOp := [.call (.newElement 9), .parse idDoc]
+example : Tree.idValues idDoc = [['x'], ['y']] := by decide
+example : IdStore.init.runOK idOps := ⟨trivial, (by show validTree _ _ = true; decide), trivial⟩
+example : (IdStore.init.run idOps).xmlIdNode 1 ['x'] = some 3 ∧ (IdStore.init.run idOps).xmlIdNode 1 ['y'] = some 6 ∧
+    (IdStore.init.run idOps).xmlIdNode 1 ['z'] = none ∧ (IdStore.init.run idOps).xmlIdNode 0 ['x'] = none ∧
+    (IdStore.init.run idOps).forest.next = 8 := by decide
+/-- remove a; refill; move b into the API-built element; parse the same text again (document 10). -/
+def idOps2 : List IdOp := idOps ++ [.call (.remove 3), .call (.newElement 9), .call (.newText ['t']),
+  .call (.append 0 6), .parse idDoc]
+example : (IdStore.init.run idOps2).xmlIdNode 1 ['x'] = none ∧ (IdStore.init.run idOps2).forest.isRemoved 3 = true ∧
+    (IdStore.init.run idOps2).xmlIdNode 1 ['y'] = some 6 ∧ (IdStore.init.run idOps2).forest.parent? 6 = some 0 ∧
+    (IdStore.init.run idOps2).xmlIdNode 10 ['x'] = some 12 ∧ (IdStore.init.run idOps2).forest.inv = true := by
+  decide +kernel
+/-- a tree with a duplicate ID is refused and the store is unchanged (`DuplicateId`). -/
+example : (IdStore.init.parse (.node .document [.node (.element 2) [.node (.attribute 1 ['x']) [],
+    .node (.element 3) [.node (.attribute 1 ['x']) []]]])).2 = none := by decide
 
 end XotModel.Props
